@@ -27,8 +27,73 @@ def _vec_close(got, want, scale=1.0):
   return a.ndim == 0 and cm.close(a.item(), want, scale)
 
 
+RREG_INT32 = 'rregression-int32-overflow'
+RREG_CANCEL = 'rregression-cancellation-large-mean'
+RREG_INT64 = 'rregression-int64-overflow-integer-sums'
+XENT_ZERO = 'categorical-cross-entropy-zero-probability'
+_INT32_SQRT = 46340  # 46341**2 > 2**31 - 1
+
+
+def _columns(x):
+  x = list(x)
+  if x and isinstance(x[0], (list, tuple)):
+    return [[r[j] for r in x] for j in range(len(x[0]))]
+  return [x]
+
+
+def _condition(col):
+  """max|v| / rms deviation lower bound: how many digits centring costs."""
+  lo, hi = min(col), max(col)
+  scale = max(abs(lo), abs(hi), 1.0)
+  if hi == lo:
+    return 1.0
+  # two points differ by the spread -> sum of squared deviations >= spread^2 / 2
+  return scale / ((hi - lo) / math.sqrt(2.0 * len(col)))
+
+
+def _rreg_class(config, xs, ys, int_dtype=None):
+  """-> (mechanism key of the input class | None, tolerance scale).
+
+  int_dtype: integer container the data is handed over in on this path
+  ('int32' | 'int64' for x, and for y too when config['y_int32']), else None.
+  """
+  cols = _columns(xs)
+  cond = max([_condition(c) for c in cols] + [_condition(list(ys))])
+  # A numerically stable float64 algorithm (centre first) is off by about
+  # eps * cond; ATOL * scale = 1e-12 * (1 + 0.015 * cond) ~ 64 eps * cond.
+  tol_scale = 1.0 + 0.015 * cond
+  if int_dtype:
+    y_int = bool(config.get('y_int32'))
+    if int_dtype == 'int32':
+      # x**2, y**2, x*y evaluated element-wise in int32
+      big_x = any(abs(v) > _INT32_SQRT for c in cols for v in c)
+      big_y = y_int and any(abs(v) > _INT32_SQRT for v in ys)
+      prod = y_int and any(abs(v * w) >= 2 ** 31 for c in cols for v, w in zip(c, ys))
+      if big_x or big_y or prod:
+        return RREG_INT32, tol_scale
+    if y_int:
+      # all six sums are int64: their products in result() must fit int64
+      iy = [int(v) for v in ys]
+      sy, syy = sum(iy), sum(v * v for v in iy)
+      for c in cols:
+        ic = [int(v) for v in c]
+        sx, sxx = sum(ic), sum(v * v for v in ic)
+        if config.get('center', True):
+          worst = max(sx * sx, sy * sy, abs(sx * sy))
+        else:
+          worst = sxx * syy
+        if worst > 2 ** 63 - 1:
+          return RREG_INT64, tol_scale
+  if cond > 1e4:
+    return RREG_CANCEL, tol_scale
+  return None, tol_scale
+
+
 def check_pairwise(ctx, case):
-  """sub in r2tjur / r2tjur_rel / rreg / spd; input {'batches': [[a, b], ...]}."""
+  """sub in r2tjur / r2tjur_rel / rreg / spd; input {'batches': [[a, b], ...]}.
+
+  rreg config: center, data ('grid' | 'offset' | 'int32' = integer containers),
+  int_dtype ('int32' | 'int64'), y_int32 (the target is an integer array too)."""
   import numpy as np
   from ml_metrics._src.aggregates import rolling_stats as rs
 
@@ -48,37 +113,51 @@ def check_pairwise(ctx, case):
   n = sum(len(b[0]) for b in batches)
   ctx.case(('misc', sub, config, case['input']), n >= 3)
   ctx.count('misc_%s_cases' % sub)
-  tol_scale = 1.0
+  int32 = sub == 'rreg' and config.get('data') == 'int32'
+  if sub == 'rreg' and config.get('data') == 'offset':
+    ctx.count('misc_rreg_offset_cases')
+  if int32:
+    ctx.count('misc_rreg_int32_cases')
 
-  def compare(got, want, path):
+  def compare(got, want, path, a, b):
     ctx.count('misc_value_checks')
     if cm.is_nan(want) or (isinstance(want, list) and any(cm.is_nan(w) for w in want)):
       ctx.count('convention_cases')
-    if sub == 'spd' and n:
-      tol_scale_ = 1.0
-    else:
-      tol_scale_ = tol_scale
-    if not _vec_close(got, want, tol_scale_):
-      mis.add('value_mismatch', None,
+    mech, tol_scale = None, 1.0
+    if sub == 'rreg':
+      # plain python ints become int64: no int32 arithmetic on that path
+      path_dtype = None if not int32 else ('int64' if path == 'add_result' else int_dtype)
+      mech, tol_scale = _rreg_class(config, a, b, path_dtype)
+    if not _vec_close(got, want, tol_scale):
+      mis.add('value_mismatch', mech,
               {'path': path, 'got': got, 'want': want})
     if sub == 'rreg':
-      a = np.asarray(got, dtype=float)
-      if not bool(np.all(np.isnan(a) | ((a >= -1 - 1e-9) & (a <= 1 + 1e-9)))):
-        mis.add('out_of_range', None, {'got': got})
+      arr_ = np.asarray(got, dtype=float)
+      if not bool(np.all(np.isnan(arr_) | ((arr_ >= -1 - 1e-9) & (arr_ <= 1 + 1e-9)))):
+        mis.add('out_of_range', mech, {'got': got})
 
-  arr = lambda v: np.asarray(v, dtype=float)
+  int_dtype = config.get('int_dtype', 'int32')
+  if int32:
+    arr_x = lambda v: np.asarray(v, dtype=np.int32 if int_dtype == 'int32' else np.int64)
+    arr_y = arr_x if config.get('y_int32') else (lambda v: np.asarray(v, dtype=float))
+    plain = lambda v: [([int(e) for e in r] if isinstance(r, list) else int(r)) for r in v]
+  else:
+    arr_x = arr_y = lambda v: np.asarray(v, dtype=float)
+    plain = lambda v: v
   try:
     with cm.observed_warnings(ctx, 'misc'):
       a0, b0 = batches[0]
-      compare(make().as_agg_fn()(arr(a0), arr(b0)), oracle(a0, b0), 'agg_fn')
+      compare(make().as_agg_fn()(arr_x(a0), arr_y(b0)), oracle(a0, b0), 'agg_fn', a0, b0)
       m = make()
-      m.add(a0, b0)  # plain python lists
-      compare(m.result(), oracle(a0, b0), 'add_result')
+      # plain python lists
+      m.add(plain(a0), plain(b0) if config.get('y_int32') else b0)
+      compare(m.result(), oracle(a0, b0), 'add_result', a0, b0)
       m = make()
       for a, b in batches:
-        m.add(arr(a), arr(b))
+        m.add(arr_x(a), arr_y(b))
       ctx.count('misc_accumulator_checks')
-      compare(m.result(), oracle(_cat(batches, 0), _cat(batches, 1)), 'accumulator')
+      alla, allb = _cat(batches, 0), _cat(batches, 1)
+      compare(m.result(), oracle(alla, allb), 'accumulator', alla, allb)
   except Exception as e:  # pylint: disable=broad-exception-caught
     mis.add('raised', None, {'error': repr(e)[:300]})
   if not mis.flush(ctx, case) and len(ctx.samples) < 2:
@@ -214,6 +293,8 @@ def check_mathutils(ctx, case):
 
 def check_signals(ctx, case):
   """sub 'flip': input {base, model, threshold}; 'xent': {y_true, y_pred};
+  'xent01': {y_true, y_pred} with exact 0.0 / 1.0 probabilities (categorical
+  only: binary_cross_entropy documents the open interval);
   'topkacc': {y_pred, label, weights, k}."""
   import numpy as np
   sub, inp = case['sub'], case['input']
@@ -257,6 +338,20 @@ def check_signals(ctx, case):
             inp['y_true'], inp['y_pred'])
         if not cm.close(g, w, 10.0 * len(inp['y_true'])):
           mis.add('value_mismatch', None,
+                  {'fn': 'categorical_cross_entropy', 'got': g, 'want': w})
+      elif sub == 'xent01':
+        from ml_metrics._src.signals import cross_entropy as ce
+        yt, yp = np.asarray(inp['y_true']), np.asarray(inp['y_pred'], dtype=float)
+        ctx.count('misc_value_checks')
+        ctx.count('misc_xent_closed_interval_cases')
+        # input class: a class that is not true has probability exactly 0
+        zero_off = any(t == 0 and p == 0 for t, p in zip(inp['y_true'], inp['y_pred']))
+        if zero_off:
+          ctx.count('misc_xent_zero_probability_cases')
+        g, w = ce.categorical_cross_entropy(yt, yp), os_.categorical_cross_entropy(
+            inp['y_true'], inp['y_pred'])
+        if not cm.close(g, w, 10.0 * len(inp['y_true'])):
+          mis.add('value_mismatch', XENT_ZERO if zero_off else None,
                   {'fn': 'categorical_cross_entropy', 'got': g, 'want': w})
       elif sub == 'topkacc':
         from ml_metrics._src.signals import topk_accuracy as ta
